@@ -273,7 +273,7 @@ func init() {
 	register(&Prop{
 		ID:         "C15",
 		Title:      "Emulated failures fail every data call, change nothing, and are reversible",
-		Decided:    "per client package: (R1) every DynamoDB data method (classified by SDK operation name) tests Client.forceFailureErr with the mutex held, and every instruction that touches client/table state lies on the nil edge of that test – so a failing call changes nothing because it never reaches state; (R2) the non-nil edge returns the configured error value itself with no output; (R3) BatchWriteItem does not short-circuit on the failure but routes every request through the client's own checked PutItem/DeleteItem, unconditionally for every request of every table, and its error handler turns a non-nil error into nil only after appending the request to the unprocessed map that is returned; (R4) the condition table has an entry for every FailureCondition constant with None ↦ nil, the three public switches reach the single writer of forceFailureErr with the right constants; (R5) the v1 and v2 summaries agree; WithContext wrappers are pure delegations; (R6) nothing a failing batch hands back is built on package-level storage shared between tables, calls or clients (= C18.R6); (R7) the client has no state beyond the confirmed fields: a field added later that derives from the failure switch must be rewritten wherever the switch is; (R8) the per-request error handler records a request as unprocessed only on paths on which the error was found to be an API error.",
+		Decided:    "per client package: (R1) every DynamoDB data method (classified by SDK operation name) tests Client.forceFailureErr with the mutex held, and every instruction that touches client/table state lies on the nil edge of that test – so a failing call changes nothing because it never reaches state; (R2) the non-nil edge returns the configured error value itself with no output; (R3) BatchWriteItem does not short-circuit on the failure but routes every request through the client's own checked PutItem/DeleteItem, unconditionally for every request of every table, and its error handler turns a non-nil error into nil only after appending the request to the unprocessed map that is returned; (R4) the condition table has an entry for every FailureCondition constant with None ↦ nil, the three public switches reach the single writer of forceFailureErr with the right constants; (R5) the v1 and v2 summaries agree; WithContext wrappers are pure delegations; (R6) nothing a failing batch hands back is built on package-level storage shared between tables, calls or clients (= C18.R6); (R7) the client has no state beyond the confirmed fields: a field added later that derives from the failure switch must be rewritten wherever the switch is; (R8) the per-request error handler records a request as unprocessed only on paths on which the error was found to be an API error; (R9) the unprocessed list reported under a table's name is that table's own (= C19.R7).",
 		NotDecided: "equality of states before/after is never computed (the argument is that no state-touching instruction is reachable on the failure edge); behaviour of the SDK error types; value of the error message.",
 		Assumes:    []string{"data operations are identified by DynamoDB API operation names (PutItem, GetItem, DeleteItem, UpdateItem, Query, Scan, BatchWriteItem, BatchGetItem, Transact*, Execute*) and their WithContext variants"},
 		Rules: []RuleDef{
@@ -362,6 +362,7 @@ func init() {
 			{ID: "R6", Desc: "the unprocessed lists of a failing batch are not built on shared package-level storage (= C18.R6)", Run: aliasRule("R6", c18R6, nil)},
 			{ID: "R7", Desc: "the client has no state beyond the confirmed fields: a saved previous failure, a memo of the switch etc. must follow every write of forceFailureErr (T-FIELD closure)", Run: func(e *Engine) { stateModelClosed(e, "R7", func(k string) bool { return k == "v1.Client" || k == "v2.Client" }) }},
 			{ID: "R8", Desc: "a batch write records a request as unprocessed only for API errors: under \"errors.As answered false\" the recording is unreachable (CFG exploration under facts)", Run: c15R8},
+			{ID: "R9", Desc: "what a failing batch reports as unprocessed under a table's name is that table's own list, not a buffer shared by all tables (= C19.R7)", Run: aliasRule("R9", c19R7, nil)},
 		},
 	})
 }
